@@ -211,7 +211,8 @@ class DAGRunConcurrentManager(DAGRunManagerLike):
                     )
 
         else:
-            kwargs = self.ctx.input_kwargs
+            # A copy: additional_data below must not leak into the caller's dictionary
+            kwargs = dict(self.ctx.input_kwargs)
 
         additional_data = self.dag.graph.nodes[node_id].get(NodeField.additional_data)
 
